@@ -11,7 +11,7 @@ def c10():
         rule=("rapidcheck scenarios: pool size 1..16, subsets of threads not started / stopped, 1-3 concurrent broadcasts from external or pool "
               "threads through tpt_msg_bsend_ex / tpt_msg_cbsend with every flag combination the API documents (SYNC self-deadlock shapes the "
               "header warns about are excluded and counted), user callbacks of 0-2 ms, schedule plan at the LIBLCB_VERIF points (incl. the "
-              "unlock/done_cb point), queue-write fault plan, a caller that belongs to another pool, a storm of handled signals (SIGUSR1 every 50-300 us at the "
+              "unlock/done_cb point), queue-write fault plan, a caller that belongs to another pool (bsend_ex and cbsend), a storm of handled signals (SIGUSR1 every 50-300 us at the "
               "caller) during synchronous waits; plus an exhaustive single-fault sweep. Non-trivial: a target not running, "
               "caller inside the pool, concurrent broadcasts, or an injected fault. distinct = distinct scenario fingerprints."),
         assumptions=["interleavings are perturbed at marked points, not enumerated",
